@@ -156,7 +156,12 @@ class var_induct(Tactic):
             raise NotImplementedError
         inst = matcher.first_order_match(th_args[0], var)
         inst[f.name] = P
+        # Only the assumptions of the induction theorem become subgoals: when
+        # the goal is itself an implication, instantiating the predicate makes
+        # the conclusion an implication as well, which must not be stripped.
+        num_assums = len(th.prop.strip_implies()[0])
         As, _ = th.prop.subst_norm(inst).strip_implies()
+        As = As[:num_assums]
         pts = [ProofTerm.sorry(Thm(A, goal.hyps)) for A in As]
         return ProofTerm("apply_induct", (th_name, var, goal.prop), pts)
 
